@@ -194,6 +194,10 @@ def run(ctx):
                 ctx.nontrivial(tuple(seq))
             if i % 67 == 0:
                 ctx.sample(dict(dtype=str(wd), history=[list(s) for s in seq]))
+    if ctx.tier == "thorough" and ctx.shard == 0 and ctx.only_case is None:
+        from qv import suite
+
+        suite.run_suite_under_monitor(ctx, "C06")
     ctx.counters["tensors_checked"] = ctx.counters.get("tensors_checked", 0) + ctx.counters.get(
         "c06_checked_at_dispatch", 0) + ctx.counters.get("c06_checked_at_function", 0)
     if ctx.counters.get("monitor_error", 0) > max(20, 0.01 * ctx.counters.get("monitored_calls", 0)):
